@@ -258,6 +258,92 @@ fn run_decomposer(g: &Graph, driver: &str, simp: SimpFunc, split: bool, parallel
     d.scalar()
 }
 
+/// Operation histories on one Decomposer (the brief's "start from non-initial states"): a plan is a list of steps
+///   U<k> = decompose_until_depth(k), D = decompose, P = decompose_parallel, S = decompose_standard,
+///   R = set_target(the same diagram again)  (re-use of a finished decomposer)
+/// returns the scalar after the last step and the saved terms
+fn run_history(g: &Graph, driver: &str, simp: SimpFunc, split: bool, save: bool, plan: &[&str]) -> (Scalar4, Vec<Graph>, usize) {
+    let mut d = Decomposer::new(g);
+    d.with_simp(simp).with_split_graphs_components(split).with_save(save);
+    macro_rules! step {
+        ($drv:expr, $op:expr) => {{
+            match $op {
+                "D" => {
+                    d.decompose(&$drv);
+                }
+                "P" => {
+                    d.decompose_parallel(&$drv);
+                }
+                "S" => {
+                    d.decompose_standard();
+                }
+                "R" => {
+                    d.set_target(g.clone());
+                }
+                u => {
+                    d.decompose_until_depth(u[1..].parse().unwrap(), &$drv);
+                }
+            }
+        }};
+    }
+    for op in plan {
+        match driver {
+            "bss-first" => step!(BssTOnlyDriver { random_t: false }, *op),
+            "bss-random" => step!(BssTOnlyDriver { random_t: true }, *op),
+            "cats-first" => step!(BssWithCatsDriver { random_t: false }, *op),
+            "cats-random" => step!(BssWithCatsDriver { random_t: true }, *op),
+            "dynamic-t" => step!(DynamicTDriver, *op),
+            "sherlock-1" => step!(SherlockDriver { tries: vec![1, 1, 1] }, *op),
+            "sherlock-10" => step!(SherlockDriver { tries: vec![10, 10, 10] }, *op),
+            _ => step!(SpiderCuttingDriver, *op),
+        }
+    }
+    (d.scalar(), d.done.clone(), d.nterms)
+}
+
+pub const PLANS: [&[&str]; 9] = [&["U0", "D"], &["U1", "D"], &["U2", "D"], &["U1", "P"], &["U1", "U1", "D"], &["U2", "U1", "D"], &["D", "R", "D"], &["U1", "R", "D"], &["U1", "S"]];
+
+/// histories on one closed diagram: the scalar after the last step is the diagram's value
+pub fn judge_histories(st: &mut Stats, spec: &DiagSpec, only: Option<&Value>) {
+    st.inc("cases");
+    let g: Graph = spec.build();
+    let Some(want) = want_scalar(&g) else { return };
+    script::install_source();
+    for driver in DRIVERS {
+        for simp in SIMPS {
+            for split in [false, true] {
+                for plan in PLANS {
+                    // decompose_standard uses its own driver: judged once
+                    if plan.contains(&"S") && driver != "cats-first" {
+                        continue;
+                    }
+                    let cfg = json!({"driver": driver, "simp": format!("{:?}", simp), "split": split, "plan": plan});
+                    if let Some(o) = only {
+                        if *o != cfg {
+                            continue;
+                        }
+                    }
+                    st.inc("evaluations");
+                    script::begin(&[], usize::MAX);
+                    let r = guarded(|| run_history(&g, driver, simp, split, false, plan).0);
+                    let wit = || json!({"kind": "history", "spec": spec.to_json(), "config": cfg});
+                    let cls = format!("{}|{:?}|split={}|{}", driver, simp, split, plan.join(","));
+                    match r.map(|s| scalar_exact(&s)) {
+                        Ok(Some(x)) if x.eqv(&want) => {
+                            if g.tcount() > 0 {
+                                st.inc("nontrivial")
+                            }
+                        }
+                        Ok(x) => st.violation(Violation { sig: format!("history|wrong-scalar|{}", cls), detail: format!("{:?} vs {}", x.map(|z| z.key()), want.key()), witness: wit() }),
+                        Err(p) => st.violation(Violation { sig: format!("history|panic|{}|{}", cls, p.rsplit(" @ ").next().unwrap_or("")), detail: p, witness: wit() }),
+                    }
+                }
+            }
+        }
+    }
+    script::remove_source();
+}
+
 fn want_scalar(g: &Graph) -> Option<Zw> {
     match eval_graph(g, None) {
         Tensor::Exact(v) if v.len() == 1 => Some(v[0].clone()),
@@ -426,21 +512,14 @@ pub fn judge_saved(st: &mut Stats, spec: &DiagSpec) {
     let g: Graph = spec.build();
     let want = eval_graph(&g, None);
     let Tensor::Exact(wv) = &want else { return };
-    for (dname, cats) in [("bss-first", false), ("cats-first", true)] {
+    const SAVED_PLANS: [&[&str]; 7] = [&["D"], &["P"], &["U0", "D"], &["U1", "D"], &["U2", "D"], &["U1", "U1", "D"], &["U1", "P"]];
+    for (dname, _cats) in [("bss-first", false), ("cats-first", true)] {
         for simp in SIMPS {
+          for plan in SAVED_PLANS {
             st.inc("evaluations");
-            let wit = || json!({"kind": "saved", "spec": spec.to_json(), "driver": dname, "simp": format!("{:?}", simp)});
-            let r = guarded(|| {
-                let mut d = Decomposer::new(&g);
-                d.with_simp(simp).with_save(true);
-                if cats {
-                    d.decompose(&BssWithCatsDriver { random_t: false });
-                } else {
-                    d.decompose(&BssTOnlyDriver { random_t: false });
-                }
-                d.done.clone()
-            });
-            let cls = format!("{}|{:?}", dname, simp);
+            let wit = || json!({"kind": "saved", "spec": spec.to_json(), "driver": dname, "simp": format!("{:?}", simp), "plan": plan});
+            let r = guarded(|| run_history(&g, dname, simp, false, true, plan).1);
+            let cls = if plan.len() == 1 { format!("{}|{:?}", dname, simp) } else { format!("{}|{:?}|{}", dname, simp, plan.join(",")) };
             match r {
                 Err(p) => st.violation(Violation { sig: format!("saved|panic|{}|{}", cls, p.rsplit(" @ ").next().unwrap_or("")), detail: p, witness: wit() }),
                 Ok(done) => {
@@ -475,6 +554,7 @@ pub fn judge_saved(st: &mut Stats, spec: &DiagSpec) {
                     }
                 }
             }
+          }
         }
     }
 }
@@ -901,6 +981,27 @@ pub fn run(rep: &mut Report) {
         });
         rep.absorb(&format!("plugged circuits K({},{},A_ct)", q, d), "every circuit with |0..0> plugged in and every Z1/X0 output pattern plugged, 8 drivers x {Clifford, full} simplification", true, None, t0, stats);
     }
+    // operation histories on one decomposer (staged runs, re-use)
+    {
+        let t0 = Instant::now();
+        let mut fam: Vec<DiagSpec> = vec![];
+        for n in 1..=3 {
+            fam.extend(glike_family(n, true, &PHI4));
+        }
+        fam.extend(glike_family(4, false, &t2));
+        fam.extend(many_t_family());
+        fam.extend(gadget_group_family());
+        if !quick {
+            fam.extend(glike_family(5, false, &t2));
+            fam.extend(cat_family(true));
+        }
+        let stats = sweep(&fam, |st, i, spec| {
+            watch_begin(i as u64, 5);
+            judge_histories(st, spec, None);
+            watch_end();
+        });
+        rep.absorb("operation histories", &format!("{} closed diagrams x 8 drivers x 3 simplification levels x split off/on x 9 plans over {{decompose_until_depth(k), decompose, decompose_parallel, decompose_standard, set_target}} (staged runs: U0/U1/U2 then D or P, two stages, re-use after a finished or a partial run)", fam.len()), true, None, t0, stats);
+    }
     // per-step clause
     {
         let t0 = Instant::now();
@@ -1034,6 +1135,7 @@ pub fn replay(w: &Value) -> Option<Violation> {
         "config" => judge_configs(&mut st, &spec?, Some(&w["config"]), true),
         "step" => judge_steps(&mut st, &spec?, w["decomp"].as_str()),
         "saved" => judge_saved(&mut st, &spec?),
+        "history" => judge_histories(&mut st, &spec?, Some(&w["config"])),
         "random" => {
             judge_random(&mut st, &spec?, usize::MAX, 50_000);
         }
